@@ -117,10 +117,18 @@ CLAIMED = {
    text="TLC explores every load() history over a text pool in the five carriers with the LRU memo as a state variable and checks carrier-freedom and agreement with LoadRef (and shows that memoising on the carrier object violates it). On the real code, every type of the TLC universe is fed the same text in str/bytes/bytearray/memoryview(bytes)/memoryview(bytearray) and TLC requires equal outcomes or rejection by all; load/strload/decode are run over ~80 adversarial texts with facts from the standard json and ast modules; JSON text, literal text and the decoded wire value must unmarshal alike for collection, mapping and structured types.",
    ref="DESIGN.md section 4 C14",
    note="Trusted: TLC; stdlib json (strict) and ast.literal_eval as fact sources; texts where strict and lenient JSON decoders disagree are excluded."),
+ "C02": dict(
+   engine="Codec",
+   technique="TLA+ spec Codec.tla (codec() memo as state, three entry points, identity coder) checked exhaustively by TLC over histories; real codec/encode/decode under three encoder configurations in sequence, validated by TLC trace spec Codec_Trace.tla with the stdlib json parser as independent reader",
+   level="model_checking",
+   text="TLC explores every history of up to 4 uses over JSON-carried and bytes-like types and three encoder configurations with the codec() cache as state and checks agreement of the entry points, absence of cross-talk between configurations and verbatim carriage of bytes-like types (and shows a key without the coders, or top-level functions that always run the encoder, violating it). On the real code every str-keyed non-ambiguous type of the TLC universe (plus bytes/bytearray) is encoded and decoded through Codec methods, the top-level functions and the explicit composition under default -> stdlib json -> tagging codec -> default without clearing caches; TLC requires identical results, bytes equal to encoder(marshal(v)), the standard json module parsing them to exactly marshal(v), and decode(encode(v)) = v.",
+   ref="DESIGN.md section 4 C02",
+   note="Trusted: TLC; stdlib json as independent parser; term projection. Ambiguous-union types are outside (C01 weak law)."),
 }
 NOT_BUILT = "check not built yet (build in progress; see DESIGN.md section 7 build order)"
 
 ENGINES = {
+ "Codec": dict(path="spec/Codec.tla", kind="TLA+ spec + TLC (exhaustive histories, trace validation) + harness/drivers/c02.py"),
  "Carriers": dict(path="spec/Carriers.tla", kind="TLA+ spec + TLC (exhaustive histories, trace validation) + harness/drivers/c14.py"),
  "Member": dict(path="spec/Member_Trace.tla", kind="TLA+ trace spec over Terms/Wire + harness/drivers c05 c07 c11 c15"),
  "Graph": dict(path="spec/Graph.tla", kind="TLA+ spec + TLC (exhaustive incl. liveness, topology emission, trace validation) + harness/drivers/c09.py"),
